@@ -199,6 +199,12 @@ func (r *simRC) answerOpt(c hrpc.Call, failOnServerError bool) (hrpc.RPCResult, 
 		res = w.cl.ExecOp(r.addr, req.GetRegion().GetValue(), kind, req.GetMutation().GetRow(), c, 0)
 		msg = &pb.MutateResponse{Processed: proto.Bool(true), Result: &pb.Result{Cell: kvToCells(res.Cells)}}
 	default:
+		if len(c.Table()) == 0 || c.Region() == nil || len(c.Region().Name()) == 0 {
+			// an administrative call: served by the active master
+			res = w.cl.ExecMaster(r.addr, c.Name(), c)
+			msg = c.NewResponse()
+			break
+		}
 		// check-and-put and friends: treat as a mutation of their key
 		res = w.cl.ExecOp(r.addr, c.Region().Name(), "other", c.Key(), c, 0)
 		msg = c.NewResponse()
@@ -324,6 +330,23 @@ func (w *world) releaseHolds() {
 			c.ResultChan() <- res
 		}
 	}
+}
+
+// newAdminWorld builds a cluster and a real admin client wired to simulated region clients.
+func newAdminWorld(cl *sim.Cluster, opts ...gohbase.Option) (*world, gohbase.AdminClient) {
+	w := &world{cl: cl, epoch: vrt.Now(), closedAt: -1}
+	cl.Now = w.now
+	fn := func(addr string, ct region.ClientType, qs int, fi time.Duration, user string, rt time.Duration,
+		codec compression.Codec, d func(ctx context.Context, network, addr string) (net.Conn, error),
+		l *slog.Logger) hrpc.RegionClient {
+		vrt.HLock()
+		defer vrt.HUnlock()
+		rc := &simRC{w: w, addr: addr, id: len(w.rcs) + 1}
+		w.rcs = append(w.rcs, rc)
+		return rc
+	}
+	all := append([]gohbase.Option{gohbase.Logger(quietLogger)}, opts...)
+	return w, gohbase.VNewAdminClient(&fakeZK{w}, fn, all...)
 }
 
 // openConns lists simulated region clients that were opened and never closed.
